@@ -54,10 +54,15 @@ def run(P, rep, tier):
     rep.attempt(c07.r5_fresh_view, P, rep, ctx, "C06.R7")
     rep.attempt(r9_separator_in_last_segment, P, rep, ctx)
     rep.attempt(r10_unregister_callers, P, rep, ctx)
+    from .common import r_path_prefix_tests
+
+    rep.attempt(r_path_prefix_tests, P, rep, ctx, "C06.R11", {"container.interface", "container.wrappers"})
     # unlinking relies on the driver's delete: on IH5 a deleted object must stay deleted across patch boundaries
     from . import c01
 
     rep.attempt(c01.r2_delete_marker, P, rep, ctx)
+    # at most one object per schema and node (attach discipline of C07.R2): a second object's link outlives its deletion
+    rep.attempt(c07.r2_set_discipline, P, rep, ctx)
     rep.floor("C06.R1", 18)
     rep.floor("C06.R2", 10)
     rep.floor("C06.R3", 10)
